@@ -554,6 +554,12 @@ func (f *Formatter) formatErrorStatement(stmt *ast.ErrorStatement) string {
 	if stmt.Argument != nil {
 		buf.WriteString(" " + f.formatExpression(stmt.Argument).ChunkedString(stmt.Nest, buf.Len()))
 	}
+	// comment in front of the semicolon of the argument-less form: "error /* comment */;"
+	if stmt.Code == nil && stmt.Argument == nil {
+		if v := f.formatComment(stmt.Infix, "", 0); v != "" {
+			buf.WriteString(" " + v)
+		}
+	}
 	buf.WriteString(";")
 
 	return buf.String()
